@@ -247,8 +247,11 @@ def main(argv=None) -> int:
 
     import c12_search
     c12_search.run(rep, t, stats)
+    import c12_fields
+    c12_fields.run(rep, t, stats)
 
-    rep.coverage["evaluations"] = stats.get("cases", 0) + stats.get("compiled", 0) + stats.get("search_cases", 0)
+    rep.coverage["evaluations"] = (stats.get("cases", 0) + stats.get("compiled", 0) + stats.get("search_cases", 0)
+                                   + stats.get("field_cases", 0) + stats.get("ctx_sources", 0))
     rep.coverage["distinct_nontrivial"] = stats.get("nontrivial", 0) + stats.get("search_nontrivial", 0)
     rep.coverage["traces_validated_against_impl"] = stats.get("cases", 0) + stats.get("search_cases", 0)
     rep.coverage["exhaustive"] = exhaustive
@@ -258,7 +261,10 @@ def main(argv=None) -> int:
         "{1,?,*,+}, with an optional tail that repeats a wildcard, against all node lists up to MaxN; each case replayed "
         "into core.match_template with a hand-built template and (if expressible) a compiled {{..}} pattern, 1/7 also "
         "through findall. Non-trivial = template has a quantifier with slack and the node list is non-empty. "
-        "Search.tla: every placement of pattern occurrences in every container kind.")
+        "Search.tla: every placement of pattern occurrences in every container kind. Fields.tla: every (pattern variant, "
+        "code variant) of the optional parts of 27 syntax forms (absent / literal / other literal / wildcard), and every "
+        "sequence of expression contexts (58 kinds: f-string fields, specs, nested f-strings, defaults, decorators, "
+        "annotations, comprehension parts, handlers, match guards ...) holding chains of nested occurrences.")
     rep.assumptions += ["wildcard consistency is equality of unparsed text (as the statement says: the same tree)",
                         "order of reported matches is not constrained"]
     return rep.finish()
